@@ -459,14 +459,110 @@ fn sstrategy(tier: Tier) -> BoxedStrategy<SCase> {
         .boxed()
 }
 
+/// One replayable pair for the exhaustive quotient-filter union check: bit masks over the
+/// 2^(q+r) fingerprint values.
+#[derive(Clone, Debug, Serialize, Deserialize)]
+pub struct QPair {
+    pub q: usize,
+    pub r: usize,
+    pub a: u32,
+    pub b: u32,
+}
+
+pub struct QUnion;
+
+impl Check for QUnion {
+    type Case = QPair;
+    fn name(&self) -> &'static str {
+        "quotient_union_exhaustive"
+    }
+    fn eval(&self, c: &QPair) -> Verdict {
+        use pdatastructs::filters::quotientfilter::QuotientFilter;
+        use pdatastructs::filters::Filter;
+        let nfp = 1u32 << (c.q + c.r);
+        let cap = 1usize << c.q;
+        let bh = GenBH(HKind::Ident);
+        let trash = |fp: u32| (fp as u64) | (0xA5u64 << (c.q + c.r));
+        let mut fa: QuotientFilter<u64, GenBH> = QuotientFilter::with_params_and_hash(c.q, c.r, bh);
+        let mut fb: QuotientFilter<u64, GenBH> = QuotientFilter::with_params_and_hash(c.q, c.r, bh);
+        for fp in 0..nfp {
+            if c.a & (1 << fp) != 0 && fa.insert(&(fp as u64)).is_err() {
+                return fail("harness-precondition", "operand a does not fit");
+            }
+        }
+        for fp in (0..nfp).rev() {
+            if c.b & (1 << fp) != 0 && fb.insert(&trash(fp)).is_err() {
+                return fail("harness-precondition", "operand b does not fit");
+            }
+        }
+        let union_mask = c.a | c.b;
+        let fits = (union_mask.count_ones() as usize) <= cap;
+        let res = fa.union(&fb);
+        // b never changes
+        for fp in 0..nfp {
+            if fb.query(&(fp as u64)) != (c.b & (1 << fp) != 0) || fb.len() != c.b.count_ones() as usize {
+                return fail("quotient:union-modifies-other", format!("b changed by a.union(&b) (q={}, r={}, a={:#b}, b={:#b})", c.q, c.r, c.a, c.b));
+            }
+        }
+        let want = if res.is_ok() { union_mask } else { c.a };
+        if res.is_ok() != fits {
+            return fail(
+                if fits { "quotient:union-fails-although-classes-fit" } else { "quotient:union-succeeds-beyond-capacity" },
+                format!("a.union(&b) -> {:?} but |a ∪ b| = {} and capacity is {} (q={}, r={}, a={:#b}, b={:#b})", res.is_ok(), union_mask.count_ones(), cap, c.q, c.r, c.a, c.b),
+            );
+        }
+        if fa.len() != want.count_ones() as usize {
+            return fail(if res.is_ok() { "quotient:union-len" } else { "quotient:failed-union-changes-len" }, format!("len() = {} after union -> {:?}, expected {} (q={}, r={}, a={:#b}, b={:#b})", fa.len(), res.is_ok(), want.count_ones(), c.q, c.r, c.a, c.b));
+        }
+        for fp in 0..nfp {
+            for key in [fp as u64, trash(fp)] {
+                if fa.query(&key) != (want & (1 << fp) != 0) {
+                    return fail(
+                        if res.is_ok() { "quotient:union!=set-union" } else { "quotient:failed-union-changes-query" },
+                        format!("after a.union(&b) -> {:?}: query(fingerprint {}) = {} (q={}, r={}, a={:#b}, b={:#b})", res.is_ok(), fp, fa.query(&key), c.q, c.r, c.a, c.b),
+                    );
+                }
+            }
+        }
+        Verdict::Pass(Info::new(c.a != 0 && c.b != 0, hash64(&(c.q, c.r, c.a, c.b))))
+    }
+}
+
+fn exhaustive_quotient_unions(ctx: &Ctx, q: usize, r: usize) {
+    let nfp = 1u32 << (q + r);
+    let cap = 1u32 << q;
+    let subsets: Vec<u32> = (0u32..(1u32 << nfp)).filter(|m| m.count_ones() <= cap).collect();
+    let n = subsets.len();
+    ctx.run_indexed("quotient_union_exhaustive", n, |i, acc| {
+        for &b in &subsets {
+            let case = QPair { q, r, a: subsets[i], b };
+            match QUnion.eval(&case) {
+                Verdict::Fail { sig, msg } => return Some((serde_json::to_value(&case).unwrap(), sig, msg)),
+                Verdict::Pass(info) => acc.pass_enum(info.nontrivial, || serde_json::to_value(&case).unwrap()),
+            }
+        }
+        None
+    });
+    ctx.mark_exhaustive(
+        "quotient_union_exhaustive",
+        format!("every ordered pair of class subsets that fit a quotient filter (q={}, r={}): {} x {} pairs; union succeeds iff the union fits, equals the set union, leaves the other operand and, on Err, itself unchanged", q, r, n, n),
+    );
+}
+
 pub fn checks() -> Vec<Box<dyn DynCheck>> {
-    vec![Box::new(Filters), Box::new(Sketches)]
+    vec![Box::new(Filters), Box::new(Sketches), Box::new(QUnion)]
 }
 
 pub fn run(ctx: &Ctx) {
-    ctx.set_rule("generated: structure in {Bloom, Quotient, Cuckoo, HashSet, CMS, HLL} x configuration x hasher family x streams A, B, C over one colliding universe with generated overlap (as generated, equal, nested, empty, near capacity). Oracle on a successful merge: B unchanged; A∪B observationally equal (query/query_point over universe + fresh keys, len, is_empty, count, registers, result of one further insert/add on clones) to a fresh structure fed A then B (cuckoo: class-multiset model with per-class copy counts, plus the sequential reference whenever it accepted everything); commutativity, associativity (Bloom, Quotient, HashSet, CMS, HLL); idempotence (Bloom, Quotient, HashSet, HLL). A failed union is checked against C12's unchanged-state oracle and, for the quotient filter, must be justified by the class count. For the cuckoo filter the operands may have had their oldest elements deleted again before the union (holes in buckets); their stream is then the surviving multiset. Non-trivial: both streams non-empty, merge succeeded, and for quotient the other operand has a shifted run or wraps (Ident) / for cuckoo the other operand used an alternate bucket (drew RNG words or holds > bucketsize copies of one key). Distinct = hash of the case.");
-    ctx.run_regressions(&[&Filters, &Sketches]);
+    ctx.set_rule("exhaustive: every ordered pair of fitting class subsets of the quotient filters (q,r) = (2,1), (1,2) (thorough: (2,2), (3,1)) under the Ident hasher: union Ok iff the union fits, result = set union, other operand and (on Err) self unchanged. generated: structure in {Bloom, Quotient, Cuckoo, HashSet, CMS, HLL} x configuration x hasher family x streams A, B, C over one colliding universe with generated overlap (as generated, equal, nested, empty, near capacity). Oracle on a successful merge: B unchanged; A∪B observationally equal (query/query_point over universe + fresh keys, len, is_empty, count, registers, result of one further insert/add on clones) to a fresh structure fed A then B (cuckoo: class-multiset model with per-class copy counts, plus the sequential reference whenever it accepted everything); commutativity, associativity (Bloom, Quotient, HashSet, CMS, HLL); idempotence (Bloom, Quotient, HashSet, HLL). A failed union is checked against C12's unchanged-state oracle and, for the quotient filter, must be justified by the class count. For the cuckoo filter the operands may have had their oldest elements deleted again before the union (holes in buckets); their stream is then the surviving multiset. Non-trivial: both streams non-empty, merge succeeded, and for quotient the other operand has a shifted run or wraps (Ident) / for cuckoo the other operand used an alternate bucket (drew RNG words or holds > bucketsize copies of one key). Distinct = hash of the case.");
+    ctx.run_regressions(&[&Filters, &Sketches, &QUnion]);
     let t = ctx.tier;
+    exhaustive_quotient_unions(ctx, 2, 1);
+    exhaustive_quotient_unions(ctx, 1, 2);
+    if t == Tier::Thorough {
+        exhaustive_quotient_unions(ctx, 2, 2);
+        exhaustive_quotient_unions(ctx, 3, 1);
+    }
     ctx.run_random(&Filters, t.pick(300_000, 4_000_000), move || fstrategy(t));
     ctx.run_random(&Sketches, t.pick(150_000, 2_000_000), move || sstrategy(t));
     ctx.require_class("filters", "both_nonempty", 0.3);
